@@ -653,9 +653,21 @@ class SVGPath(SVGShape, SVGCommandSeq):
     def arcs_to_cubics(self, inplace=False):
         """Replace all arcs with similar cubics"""
 
+        prev_was_arc = False
+
         def arc_to_cubic_callback(subpath_start, curr_pos, cmd, args, *_):
+            nonlocal prev_was_arc
             del subpath_start
             if cmd not in {"a", "A"}:
+                if prev_was_arc and cmd in {"s", "S"}:
+                    # An S following an arc takes the current point as first control
+                    # point. Once the arc is cubics (or gone) S would start reflecting
+                    # a control point instead, so spell the control point out.
+                    prev_was_arc = False
+                    if cmd == "s":
+                        return (("c", (0.0, 0.0) + tuple(args)),)
+                    return (("C", (curr_pos.x, curr_pos.y) + tuple(args)),)
+                prev_was_arc = False
                 # no work to do
                 return ((cmd, args),)
 
@@ -679,6 +691,8 @@ class SVGPath(SVGShape, SVGCommandSeq):
                 else:
                     result.append(("L", (x, y)))
 
+            # a zero-length arc is omitted entirely and leaves no trace
+            prev_was_arc = len(result) > 0
             return tuple(result)
 
         target = self
